@@ -1,6 +1,7 @@
 package engine
 
 import (
+	"path/filepath"
 	"fmt"
 	"go/types"
 	"runtime/debug"
@@ -23,6 +24,10 @@ func (prog *Program) VerifyFunc(ct *Contract, opts Options) (res *UnitResult) {
 	vc := NewVC(ct.Key)
 	if ct.Pkg != nil && ct.Pkg.Name() != "adaptation" {
 		vc.Unit = ct.Pkg.Name() + "." + ct.Key
+		if ct.Pkg.Name() == "main" {
+			// commands: several of them may be loaded for one property, name by directory
+			vc.Unit = filepath.Base(ct.Pkg.Path()) + "." + ct.Key
+		}
 	}
 	vc.BV = ct.BV
 	res = &UnitResult{Unit: vc.Unit, Contract: ct, VC: vc, Pos: fmt.Sprintf("%s:%d", ct.File, ct.Line)}
